@@ -87,6 +87,18 @@ package xy
 //@   at entry: assert len(ls) / stride == len(mask)
 //@   at stmt16: assert mul(i, stride) == i * stride && mul(start, stride) == start * stride && mul(end, stride) == end * stride
 //@   at stmt16: assert dist == d2at(cells(ls), off(ls), stride, start, end, i)
+//@   at stmt24: assert forall k int :: 0 <= k && k + 1 < len(stack) && (len(stack) - k) % 2 == 0 ==> stack[k] < stack[k+1]
+//@   at stmt24: assert forall k int :: 0 <= k && k + 1 < len(stack) && (len(stack) - k) % 2 == 1 ==> stack[k] == stack[k+1]
+//@   at stmt24: assert forall k int :: 0 <= k && k < len(stack) ==> 0 <= stack[k] && stack[k] < len(mask) && mask[stack[k]] == 1 && mul(stack[k] + 1, stride) == mul(stack[k], stride) + stride && 0 <= mul(stack[k], stride)
+//@   at stmt25: assert forall k int :: 0 <= k && k + 1 < len(stack) && (len(stack) - k) % 2 == 0 ==> stack[k] < stack[k+1]
+//@   at stmt25: assert forall k int :: 0 <= k && k + 1 < len(stack) && (len(stack) - k) % 2 == 1 ==> stack[k] == stack[k+1]
+//@   at stmt25: assert forall k int :: 0 <= k && k < len(stack) ==> 0 <= stack[k] && stack[k] < len(mask) && mask[stack[k]] == 1 && mul(stack[k] + 1, stride) == mul(stack[k], stride) + stride && 0 <= mul(stack[k], stride)
+//@   at stmt24: assert forall a, b int :: 0 <= a && a <= b && b < len(stack) ==> stack[a] <= stack[b]
+//@   at stmt25: assert forall a, b int :: 0 <= a && a <= b && b < len(stack) ==> stack[a] <= stack[b]
+//@   at stmt24: assert forall k, w int :: 0 <= k && k + 1 < len(stack) && (len(stack) - k) % 2 == 0 && stack[k] < w && w < stack[k+1] ==> mask[w] == 0
+//@   at stmt25: assert forall k, w int :: 0 <= k && k + 1 < len(stack) && (len(stack) - k) % 2 == 0 && stack[k] < w && w < stack[k+1] ==> mask[w] == 0
+//@   at stmt24: assert forall u, v, i int :: {d2at(cells(ls), off(ls), stride, u, v, i)} end <= u && u < i && i < v && v < len(mask) && mask[u] == 1 && mask[v] == 1 && noMarks(heapfor("byte"), mask, u, v) ==> d2at(cells(ls), off(ls), stride, u, v, i) <= threshold * threshold
+//@   at stmt25: assert forall u, v, i int :: {d2at(cells(ls), off(ls), stride, u, v, i)} start <= u && u < i && i < v && v < len(mask) && mask[u] == 1 && mask[v] == 1 && noMarks(heapfor("byte"), mask, u, v) ==> d2at(cells(ls), off(ls), stride, u, v, i) <= threshold * threshold
 //@   at loop2.end: assert d2at(cells(ls), off(ls), stride, start, end, i - 1) <= maxDist
 //@   loop 1:
 //@     invariant [shape] l == len(stack) && l >= 0 && l % 2 == 0 && fresh(stack) && (l > 0 ==> stack[0] == 0) && found >= 2
